@@ -43,7 +43,7 @@ TECHNIQUE = "request-space map: status + bytes reaching the RPC layer + peak all
 LEVEL_TEXT = (
     "Exploration: valid requests of several sizes are wrapped in every listed framing (zstd honest/lying/absent content "
     "size, checksum, multi-frame, large window; gzip stored..level 9, flushed, multi-member, damaged; identity; unknown / "
-    "disabled / case-variant tokens; corrupt, truncated) and sent with caps at w-1,w,w+1,d-1,d,d+1,none,large over "
+    "disabled / case-variant tokens; corrupt, truncated incl. every frame flavour with its last 1-5 bytes removed) and sent with caps at w-1,w,w+1,d-1,d,d+1,none,large over "
     "Content-Length, chunked-without-length and real chunked (waitress) transfers; status, bytes handed to the RPC layer "
     "and the implementation's received arguments are compared with a size model written from the spec; for bombs the "
     "peak allocation is measured by tracemalloc and by forked-child RSS. Held means no counterexample among these executions."
